@@ -193,6 +193,9 @@ class Conn:
                 return
             if isinstance(blob, tuple) and blob[0] == 'stall':
                 return
+            if isinstance(blob, tuple) and blob[0] == 'close':
+                self.closed = True
+                return
             self.push(pkt(bytes([31]) + sstr(blob) + mpint(12345) + sstr(b'sig')))
         elif t == 34:
             mn, pf, mx = struct.unpack('>III', p[1:13])
@@ -216,6 +219,8 @@ class Conn:
             if isinstance(blob, tuple):
                 if blob[0] == 'raw':
                     self.push(blob[1])
+                if blob[0] == 'close':
+                    self.closed = True
                 return
             self.push(pkt(bytes([33]) + sstr(blob) + mpint(777) + sstr(b'sig')))
 
